@@ -6,6 +6,7 @@ require (
 	github.com/juev/hledger-lsp v0.0.0
 	github.com/segmentio/encoding v0.3.4
 	github.com/shopspring/decimal v1.4.0
+	go.lsp.dev/jsonrpc2 v0.10.0
 	go.lsp.dev/protocol v0.12.0
 	go.lsp.dev/uri v0.3.0
 )
@@ -13,7 +14,6 @@ require (
 require (
 	github.com/bmatcuk/doublestar/v4 v4.9.2 // indirect
 	github.com/segmentio/asm v1.1.3 // indirect
-	go.lsp.dev/jsonrpc2 v0.10.0 // indirect
 	go.lsp.dev/pkg v0.0.0-20210717090340-384b27a52fb2 // indirect
 	go.uber.org/atomic v1.9.0 // indirect
 	go.uber.org/multierr v1.8.0 // indirect
